@@ -155,13 +155,17 @@ func (c LongCodec) Read(r *avro.ReadBuf, p unsafe.Pointer) error {
 		return err
 	}
 
-	// The zero value (the only LongCodec a caller can construct) is the
-	// documented nanosecond codec.
-	mult := c.mult
-	if mult == 0 {
-		mult = 1
+	// Convert in the stored unit: l*mult overflows an int64 of nanoseconds for
+	// instants outside the years 1678-2262. The zero value (the only LongCodec
+	// a caller can construct) is the documented nanosecond codec.
+	switch c.mult {
+	case 1e6:
+		*(*time.Time)(p) = time.UnixMilli(l).UTC()
+	case 1000:
+		*(*time.Time)(p) = time.UnixMicro(l).UTC()
+	default:
+		*(*time.Time)(p) = time.Unix(0, l).UTC()
 	}
-	*(*time.Time)(p) = time.Unix(0, l*mult).UTC()
 	return nil
 }
 
